@@ -19,6 +19,9 @@ EXPLANATION = (
     'these shapes: KEEPALIVEs arriving at intervals <= L keep now-last <= L at every check (no false timeout), and '
     'silence > 2L spans a full sleep of L after the last receipt, so the next check sees now-last > L. The checker '
     'verifies the shapes, not the bounds; periods as run-time facts are not decided.')
+EXPLANATION_ADDED = ('The sender calls the _before_sender/_finally_sender hooks in which the client starts and stops its keepalive task; KEEPALIVE frames reach handle_keep_alive (dispatch row and routing).')
+EXPLANATION = EXPLANATION.replace(' Not decided', ' ' + EXPLANATION_ADDED + ' Not decided', 1) \
+    if ' Not decided' in EXPLANATION else EXPLANATION + ' ' + EXPLANATION_ADDED
 ASSUMPTIONS = COMMON_ASSUMPTIONS
 
 
